@@ -34,7 +34,6 @@ KF_CAPTURE = "C06-units-name-capture"
 KF_BASE = "C06-renamed-base-units"
 KF_IDS = "C06-equivalence-ids-lost"
 KF_UNRESOLVED = "C06-unresolved-import-below-placeholder"
-KF_CYCLE = "C06-import-cycle-through-child"
 
 
 # ------------------------------------------------------------------------------------------------ running the drivers
@@ -374,6 +373,20 @@ def case_facts(files):
     # a user-defined base unit whose name is also used, in another file of the closure, for a units
     base_clash = sorted(n for n, fs in base_names.items()
                         if any(n == u["name"] for fn in cl if fn not in fs for u in files[fn]["units"]) or len(fs) > 1)
+    # ... or that is imported under another name (the copy is then a base unit of that other name)
+    def resolve(fn, name, depth=0):
+        for u in files.get(fn, {"units": []})["units"]:
+            if u["name"] == name:
+                if u["imp"] and depth < 20:
+                    return resolve(u["imp"][0], u["imp"][1], depth + 1)
+                return u
+        return None
+    for fn in cl:
+        for u in files[fn]["units"]:
+            if u["imp"]:
+                t = resolve(u["imp"][0], u["imp"][1])
+                if t is not None and not t["imp"] and not t["defs"] and t["name"] not in FG.STANDARD_UNITS and t["name"] != u["name"]:
+                    base_clash = sorted(set(base_clash) | {t["name"]})
     ids_on_imported = False
     below_placeholder = False
     for fn in cl:
@@ -509,8 +522,9 @@ def judge(ctx, r, stats, mdl):
                 KF_UNRESOLVED, "%s: flattenModel %s (resolveImports returned true, the pre-checks passed)" % (r["name"], F)):
             stats["kf"] += 1
             return []
-        if (facts["units_name_clash"] or facts["suffixed_units_names"] or facts["base_units_clash"]) and md == "FFUEL" and ctx.known_finding(
-                KF_CAPTURE, "%s: flattenModel %s (endless recursion through a units cycle closed by the renaming)" % (r["name"], F)):
+        if (facts["units_name_clash"] or facts["suffixed_units_names"] or facts["base_units_clash"]) and md in ("FFUEL", "FCRASH") and ctx.known_finding(
+                KF_CAPTURE, "%s: flattenModel %s (%s)" % (r["name"], F, "endless recursion through a units cycle closed by the renaming" if md == "FFUEL"
+                                                         else "a captured name brought an unresolved imported units into the flat model")):
             stats["kf"] += 1
             return []
         return [("violation", None, "flattenModel %s after resolveImports returned true and the pre-checks passed (model: %s)" % (F, md))]
